@@ -128,7 +128,11 @@ def gen_case(rng, tier, g):
             args['protocol'] = rng.choice([-1, 0, 1, 2, 3, 4, 5, None])
         elif fmt == 'text':
             args['template'] = rng.choice(['{a}\n', '{a}|{b}\n', '{a}',
-                                           'row: {a!r}\n'])
+                                           'row: {a!r}\n',
+                                           # a field used only inside the
+                                           # format spec of another (here as
+                                           # the fill character)
+                                           '{a!s:{b!s:.1}>4}|\n'])
             args['prologue'] = rng.choice([None, 'BEGIN\n', ''])
             args['epilogue'] = rng.choice([None, 'END\n', ''])
             args['encoding'] = rng.choice(ENCODINGS)
